@@ -14,7 +14,8 @@ from vlib.common import Run, rng_for
 PROP = "C11"
 RULE = ("sim case = (timeout in {0,1,2,3,30,3600}, 1-3 workers, per-worker heartbeat pattern: healthy with gap <= timeout/2, "
         "adversarial gap up to timeout-epsilon, hung from t0 reacting to ABRT by dying or ignoring it; optional worker "
-        "deaths / TTIN; SIGCHLD schedule); live case = (worker class, hang kind or healthy pattern, timeout); distinct = "
+        "deaths / TTIN; SIGCHLD schedule); live case = (worker class, hang kind or healthy pattern incl. idle on a listener inherited in "
+        "blocking mode through LISTEN_FDS or fd://N, timeout); distinct = "
         "sha1(case)+schedule; non-trivial = at least one hung worker or an adversarial healthy pattern")
 
 ABRT, KILL, TERM = int(signal.SIGABRT), int(signal.SIGKILL), int(signal.SIGTERM)
@@ -234,6 +235,9 @@ def main(tier, seed):
         "simulated part: heartbeats are scripted on the virtual clock; 1 tick = the master's 1 s select; bounds: ABRT within timeout + 2 ticks "
         "of the last heartbeat, KILL within 2 ticks of an ignored ABRT",
         "a heartbeat gap strictly below the timeout is healthy whatever the scan phase",
+        "live part, inherited listener: the launcher process (which becomes the master) creates the listening socket in blocking mode "
+        "and hands it over as descriptor 3 with LISTEN_FDS / LISTEN_PID, or as `--bind fd://7`; judged only when the master and every "
+        "worker hold that very socket (inode) and a request is answered on it; idle = 4 x timeout, as in healthy-idle",
     ]
     common.run_sharded(run, shards, timeout=900 if q else 7200)
     if live:
